@@ -123,6 +123,14 @@ MARK_ORDER = dict(key="glib-mark-after-handlers", name="e",
                   case=[FUEL, [[CLOSE], [RAISE], [CLOSE, P(1), M(1)]],
                         [[0, R(1, 0), R(1, 1), R(2, 2), E(1)], [0, N(2)], RUN]])
 
+# The application session of Example C20_application_in_fragment (props/C20.v; format of drv/Drv_screen.v): screen 0 pushes
+# screen 1 modally from its first refresh(); "1" goes to screen 1 (default answer: CLOSE), "3" to screen 0 (CLOSE).
+APP_EXAMPLE = [600,
+               [[[], [[15, 1, [[1, 1, 0]], []]], [], [], [[[49], [[0, 1, 0]], [0]], [[51], [], [2]]], [[], []], 0, 1, 0, 0, 0, 0],
+                [[], [], [], [], [[[50], [], [0]]], [[], [[2]]], 0, 1, 0, 0, 0, 0]],
+               [[[49]], [[51]]], [], 0, [[0, [3, 0, 0]], [1]]]
+APP_EXAMPLE_KEY_EVENTS = [[3, [1, 1]], [7, [1, 0]], [8, [1, 1]], [10, [1, 1]], [3, [0, 0]], [7, [0, 0]], [8, [0, 0]]]
+
 
 def cases():
     return [dict(key=k, name=n, case=[FUEL, b, a]) for k, n, b, a in W]
